@@ -159,6 +159,52 @@ BitsOf(ones, n) == [i \in 1..n |-> IF \E j \in 1..Len(ones) : ones[j] = i - 1 TH
 BpBits(r) == BitsOf(r.bp, r.bpn)
 IbBits(r) == BitsOf(r.ib, r.n)
 
+-----------------------------------------------------------------------------
+\* Packed form, for trace validation of long inputs.
+\* (Appending to a position list at every byte makes TLC's cost quadratic in the input
+\* length.)  The bits are written exactly as json/bit_writer.rs writes them -- LSB first
+\* into a current word that is flushed when full -- but with W-bit words, W <= 16, so a
+\* word is a TLC integer; a 64-bit word of the implementation is four 16-bit words.
+\* MC_JsonScan checks, with W = 2 and 3 so that flushes happen on short strings, that the
+\* packed run denotes the same bit strings as Run*.
+Pow2 == <<1, 2, 4, 8, 16, 32, 64, 128, 256, 512, 1024, 2048, 4096, 8192, 16384, 32768>>
+
+BW0 == [w |-> <<>>, c |-> 0, k |-> 0]       \* full words, current word, bits in current word
+
+Put(b, bit, W) ==
+  IF b.k = W - 1 THEN [w |-> Append(b.w, b.c + bit * Pow2[W]), c |-> 0, k |-> 0]
+  ELSE [w |-> b.w, c |-> b.c + bit * Pow2[b.k + 1], k |-> b.k + 1]
+
+\* BitWriter::finish: a partial word is included, its remaining bits 0
+Fin(b) == IF b.k > 0 THEN Append(b.w, b.c) ELSE b.w
+BitLen(b, W) == Len(b.w) * W + b.k
+
+PAcc0(s0) == [s |-> s0, n |-> 0, ib |-> BW0, bp |-> BW0]
+
+StdPAcc(W) ==
+  LAMBDA a, c :
+    LET t == StdStep(a.s, c)
+        b1 == IF PhiBpOpen(t.phi) = 1 THEN Put(a.bp, 1, W) ELSE a.bp
+    IN [s |-> t.s, n |-> a.n + 1,
+        ib |-> Put(a.ib, PhiIb(t.phi), W),
+        bp |-> IF PhiBpClose(t.phi) = 1 THEN Put(b1, 0, W) ELSE b1]
+
+SimplePAcc(W) ==
+  LAMBDA a, c :
+    LET t == SimpleStep(a.s, c)
+    IN [s |-> t.s, n |-> a.n + 1,
+        ib |-> Put(a.ib, t.ib, W),
+        bp |-> IF Len(t.bp) = 0 THEN a.bp ELSE Put(Put(a.bp, t.bp[1], W), t.bp[2], W)]
+
+Packed(a, W) == [s |-> a.s, n |-> a.n, ib |-> Fin(a.ib), bp |-> Fin(a.bp), bpn |-> BitLen(a.bp, W)]
+
+RunStdP(bytes, W) == Packed(FoldLeft(StdPAcc(W), PAcc0(InJson), bytes), W)
+RunSimpleP(bytes, W) == Packed(FoldLeft(SimplePAcc(W), PAcc0(InJson), bytes), W)
+
+\* a W-bit word list extended with zero words to m words (the implementation's 64-bit
+\* words are 4 16-bit words each, so its list is padded to a multiple of 4)
+PadTo(seq, m) == seq \o [i \in 1..(m - Len(seq)) |-> 0]
+
 \* "neutral" bytes of a state: emit nothing and keep the state
 StdNeutral(s, c) == StdStep(s, c) = St(s, PhiNone)
 SimpleNeutral(s, c) == SimpleStep(s, c) = Sm(s, 0, <<>>)
